@@ -1,7 +1,9 @@
 #![allow(dead_code)]
 //! `vh <ID> <quick|thorough>` | `vh <ID> --replay <file>` | `vh selftest`
 mod clock;
+mod model;
 mod props;
+mod render;
 mod runner;
 mod vterm;
 
